@@ -133,7 +133,7 @@ fn scan_event<P: Kmer>(sink: &Sink, r: &mut Rng) {
         }
     }
     let score = gen_score(r, p);
-    let vts = ["DnaBytes", "DnaString", "DnaSlice", "Lmer3", "slice"];
+    let vts = ["DnaBytes", "DnaString", "DnaSlice", "Lmer3", "slice", "rcslice"];
     let vt = *r.pick(&vts);
     let vt = if vt == "Lmer3" && len > 92 { "DnaBytes" } else { vt };
     let scores: Vec<usize> = if len >= p { (0..=(len - p)).map(|i| score.eval(&P::from_bytes(&seq[i..i + p]))).collect() } else { vec![] };
@@ -149,6 +149,15 @@ fn scan_event<P: Kmer>(sink: &Sink, r: &mut Rng) {
             padded.push(0);
             let d = DnaString::from_bytes(&padded);
             let s = d.slice(3, 3 + seq.len());
+            scan_with::<P, _>(&s, k, &score)
+        }
+        "rcslice" => {
+            // the read as a reverse-complemented view that starts inside its backing string
+            let mut padded = vec![3u8, 0, 2, 2, 1];
+            padded.extend(rc_bytes(&seq));
+            padded.extend_from_slice(&[1, 3]);
+            let d = DnaString::from_bytes(&padded);
+            let s = d.slice(5, 5 + seq.len()).rc();
             scan_with::<P, _>(&s, k, &score)
         }
         _ => scan_with::<P, _>(&DnaBytes(seq.clone()), k, &score),
@@ -411,6 +420,18 @@ fn filter_dyn<K: Kmer>(reads: &[FRead], vt: &str, stranded: bool, min: usize, re
                 reads.iter().zip(owned.iter()).map(|(x, o)| (o.slice(2, 2 + x.s.len()), exts_from(&x.l, &x.r), x.label)).collect();
             run_filter::<K, _>(&seqs, stranded, min, report_all, mode, slices, probes)
         }
+        "rcslice" => {
+            // every read is a reverse-complemented view starting inside its backing string
+            let owned: Vec<DnaString> = reads.iter().map(|x| {
+                let mut p = vec![1u8, 0, 3];
+                p.extend(rc_bytes(&x.s));
+                p.extend_from_slice(&[2, 2]);
+                DnaString::from_bytes(&p)
+            }).collect();
+            let seqs: Vec<(debruijn::dna_string::DnaStringSlice, Exts, u32)> =
+                reads.iter().zip(owned.iter()).map(|(x, o)| (o.slice(3, 3 + x.s.len()).rc(), exts_from(&x.l, &x.r), x.label)).collect();
+            run_filter::<K, _>(&seqs, stranded, min, report_all, mode, slices, probes)
+        }
         _ => {
             let seqs: Vec<(DnaBytes, Exts, u32)> = reads.iter().map(|x| (DnaBytes(x.s.clone()), exts_from(&x.l, &x.r), x.label)).collect();
             run_filter::<K, _>(&seqs, stranded, min, report_all, mode, slices, probes)
@@ -454,7 +475,7 @@ fn filter_case(sink: &Sink, r: &mut Rng, pass_counts: &[usize], saturate: bool) 
         reads.push(FRead { s, l: vec![], r: vec![], label: 99 });
     }
     let maxlen = reads.iter().map(|x| x.s.len()).max().unwrap_or(0);
-    let mut vts = vec!["DnaBytes", "DnaString", "DnaSlice", "slice"];
+    let mut vts = vec!["DnaBytes", "DnaString", "DnaSlice", "slice", "rcslice"];
     if maxlen <= 92 {
         vts.push("Lmer3");
     }
